@@ -413,6 +413,12 @@ func (reader *DataReader) next() ([]byte, *DataPos, error) {
 			return nil, nil, reader.fail(pos, cnt, err)
 		}
 
+		// 映射文件 (mmap) 未正常关闭时, 逻辑末尾之后是预分配的全零区域.
+		// 全零的 chunk 头部不可能是有效数据 (空数据的校验和也不为 0), 视为数据结束
+		if reader.offset+chunkHeaderSize <= size && isZero(reader.blockBuf[reader.offset:reader.offset+chunkHeaderSize]) {
+			return nil, nil, reader.fail(pos, cnt, io.EOF)
+		}
+
 		// 对当前 chunk 解码
 		data, chunkType, err := DecodeChunk(reader.blockBuf[reader.offset:size])
 		if err != nil {
@@ -455,6 +461,36 @@ func (reader *DataReader) fail(start *DataPos, cnt uint32, err error) error {
 		return io.ErrUnexpectedEOF
 	}
 	return err
+}
+
+func isZero(b []byte) bool {
+	for _, c := range b {
+		if c != 0 {
+			return false
+		}
+	}
+	return true
+}
+
+// RestIsZero 判断读取失败的 chunk 之后直到文件末尾 (至多检查两个 block) 是否全部为零,
+// 即该 chunk 之后从未写入过任何数据: 此时校验失败的 chunk 是崩溃留下的残缺尾部 (映射文件缺失的部分表现为零), 而不是文件中部的损坏
+func (reader *DataReader) RestIsZero() bool {
+	fileSize := reader.dataFile.Size()
+	start := reader.Offset()
+	header := make([]byte, chunkHeaderSize)
+	if n, _ := reader.dataFile.ReadWriter.Read(header, start); n == chunkHeaderSize {
+		// 跳过该 chunk 声明的数据范围, 不超过所在 block 的末尾
+		end := start + chunkHeaderSize + int64(binary.LittleEndian.Uint16(header[4:6]))
+		start = min(end, (start/blockSize+1)*blockSize)
+	}
+	buf := make([]byte, blockSize)
+	for off := start; off < fileSize && off < start+2*blockSize; off += blockSize {
+		n, _ := reader.dataFile.ReadWriter.Read(buf[:min(int64(blockSize), fileSize-off)], off)
+		if !isZero(buf[:n]) {
+			return false
+		}
+	}
+	return true
 }
 
 // Offset 下一条待读取记录在文件中的起始偏移量
